@@ -499,6 +499,126 @@ def configs(tier):
     return out
 
 
+# ------------------------------------------------------------------ the sender has finished, its close waits behind unread data, then the stream is damaged
+def finished_then_damaged(cfg, how, n, api, seed=0):
+    """The remote command writes n bytes, ends and closes its channel while the local reader has not read yet (window
+    64: what arrived is parked, part in the stream buffer, part in the paused channel with EOF and CLOSE queued
+    behind it).  Another command keeps the connection busy; one of ITS later packets is damaged (a bit flipped, bytes
+    inserted) or the connection is cut.  The slow reader then reads: what it gets is a prefix of what was written,
+    and unless it got all of it the end is an error, never a clean end of file."""
+    cipher, mac, comp = cfg
+    loop = P.fresh(seed)
+    P.install_wire_labels()
+    W = 64
+    data = bytes((i * 7 + 3) % 251 for i in range(n))
+    results = []
+    try:
+        async def handler(process):
+            if process.command == 'fin':
+                process.stdout.write(data)
+                process.exit(0)
+            else:
+                while True:
+                    d_ = await process.stdin.read(100)
+                    if not d_:
+                        break
+                    process.stdout.write(d_)
+        algs = dict(encryption_algs=[cipher], compression_algs=[comp])
+        if mac:
+            algs['mac_algs'] = [mac]
+        pair = P.Pair(loop, sopts=dict(encoding=None, process_factory=handler, **algs), copts=algs)
+        pair.handshake()
+        st = {}
+
+        async def app():
+            st['fin'] = await pair.c.create_process('fin', encoding=None, window=W, max_pktsize=32)
+            st['other'] = await pair.c.create_process('echo', encoding=None)
+        pair.run(app())
+        loop.flush_all()
+        fin = st['fin']
+        state_before = fin.channel._recv_state
+        # the other command talks: its reply is what gets damaged
+        st['other'].stdin.write(b'ping')
+        loop.quiesce()
+        while pair.st in loop.deliverable():
+            P.deliver_packet(loop, pair.st)
+            loop.quiesce()
+        if how == 'cut':
+            loop.cut(pair.ct, ConnectionResetError('cut'))
+        elif pair.ct in loop.deliverable():
+            chunk = pair.ct.peer.outq.popleft()
+            raw = bytearray(bytes(chunk))
+            if how == 'flip':
+                raw[len(raw) // 2] ^= 0x10
+            else:
+                raw[5:5] = b'\\x00\\x01'
+            loop.inject(pair.ct, bytes(raw))
+        loop.flush_all()
+
+        async def consume():
+            rd = fin.stdout
+            while True:
+                try:
+                    if api == 'read':
+                        d_ = await rd.read(1 << 16)
+                    elif api == 'readline':
+                        d_ = await rd.readline()
+                    else:
+                        d_ = await rd.readexactly(7)
+                except asyncio.IncompleteReadError as exc:
+                    if exc.partial:
+                        results.append(('data', exc.partial))
+                        continue
+                    results.append(('eof',))
+                    return
+                except Exception as exc:        # pylint: disable=broad-except
+                    results.append(('exc', type(exc).__name__))
+                    return
+                if not d_:
+                    results.append(('eof',))
+                    return
+                results.append(('data', d_))
+        t = loop.create_task(consume())
+        loop.flush_all()
+        viol = []
+        got = b''.join(r[1] for r in results if r[0] == 'data')
+        if not data.startswith(got):
+            viol.append(('stream-data', 'the reader got %d bytes that are not a prefix of the %d written' % (len(got), n)))
+        if not t.done():
+            viol.append(('stream-reader-hangs', 'reader still waiting after the connection ended'))
+        elif results and results[-1][0] == 'eof' and got != data:
+            viol.append(('clean-eof-after-damage', 'the reader got %d of %d bytes and then a clean end of file (channel receive state before the damage: %s)'
+                         % (len(got), n, state_before)))
+        return {'viol': viol, 'state': state_before, 'got': len(got),
+                'loop_exc': [repr(c.get('exception') or c.get('message'))[:200] for c in loop.unretrieved()]}
+    finally:
+        P.done(loop)
+
+
+def finished_worker(job):
+    acc = core.Acc()
+    for cfg, how, n, api in job:
+        name = '%s/%s/%s' % cfg
+        try:
+            obs = finished_then_damaged(cfg, how, n, api)
+            viol = obs['viol'] + ([('loop-exception', obs['loop_exc'][0])] if obs['loop_exc'] else [])
+            acc.count('finished:state-before-damage:%s' % obs['state'])
+        except Livelock as exc:
+            viol = [('livelock', str(exc))]
+        acc.add(core.digest(('finished', cfg, how, n, api)), transitions=1,
+                sample={'config': name, 'sender_finished_then': how, 'bytes_written': n, 'reader': api} if how == 'flip' and n == 150 and api == 'read' else None)
+        for k, det in viol:
+            acc.violation('tamper:%s:%s:finished-%s:%s' % (k, name, how, api), '%s; n=%d' % (det, n),
+                          {'kind': 'finished', 'cfg': list(cfg), 'how': how, 'n': n, 'api': api})
+    return acc
+
+
+def finished_jobs(cfgs):
+    cases = [(cfg, how, n, api) for cfg in cfgs for how in ('flip', 'insert', 'cut') for n in (10, 64, 65, 100, 128, 150, 400)
+             for api in ('read', 'readline', 'readexactly')]
+    return [cases[i::32] for i in range(32)]
+
+
 def main(tier, seed):
     t0 = core.now()
     cfgs = configs(tier)
@@ -515,6 +635,7 @@ def main(tier, seed):
     if tier == 'quick':
         scfgs = [c for c in scfgs if c[0] in ('chacha20-poly1305@openssh.com', 'aes128-gcm@openssh.com', 'aes128-ctr', 'aes256-cbc', '3des-cbc')]
     acc.merge(core.pmap(stream_worker, [(c, tier) for c in scfgs]))
+    acc.merge(core.pmap(finished_worker, finished_jobs(scfgs[:4] if tier == 'quick' else scfgs)))
     rule = ('every negotiable cipher x MAC (AEAD ciphers once) x compression triple, each direction; '
             'target packets: first encrypted packet, first and last data packet (thorough: every packet); '
             'faults: bit flips at the boundaries of every region (length field all 8 bits of one byte, '
@@ -537,6 +658,12 @@ def replay(rep):
     if r['kind'] == 'base':
         acc = worker((cfg, 'quick'))
         print(json.dumps(acc.violations[:3], indent=1, default=repr))
+        return 1 if acc.violations else 0
+    if r['kind'] == 'finished':
+        acc = finished_worker([(tuple(None if x is None else x for x in cfg), r['how'], r['n'], r['api'])])
+        print(json.dumps(acc.violations[:3], indent=1, default=repr))
+        if acc.violations:
+            print('VIOLATION property=%s replay=(given)' % PROP)
         return 1 if acc.violations else 0
     if r['kind'] == 'stream':
         acc = stream_worker((cfg, 'quick'))
